@@ -55,8 +55,8 @@ def oracle(ctx, case, real, rt):
         ctx.violation("eliot API call %s %s" % bad[0], case)
         return
     for tag, what in rt.checks:
-        if tag == "ret":
-            ctx.violation(what, case)
+        if tag in ("ret", "app-object"):
+            ctx.violation(what, case, key={"alters": "extractor-dict"} if tag == "app-object" else None)
             return
     want = pure_outcome(case["prog"])
     got = "ok" if out == "ok" else (("raised", out["raised"]["user"]) if isinstance(out, dict) and "raised" in out and "user" in out["raised"] else out)
